@@ -69,6 +69,7 @@ def model_input(case: str, out: str) -> str:
         return "unobserved." + out[:20].replace(" ", "_")
     blocks, _ = sp.index_program(json.loads(case)["prog"])
     toks = []
+    entered = set()
     for e in events(out):
         who, k = e[0], e[1]
         if who == "X":
@@ -84,13 +85,17 @@ def model_input(case: str, out: str) -> str:
             if grp == "-" or grp.isdigit():
                 toks.append(f"seen.{who}.{grp}")
         elif k == "enter":
+            entered.add(e[2])
             kind = blocks[int(e[2])][1]
             toks.append(f"enter.{who}.{e[2]}.{'A' if kind == 'async' else 'S'}")
         elif k == "bodyend":
             if blocks[int(e[2])][1] == "async":
                 toks.append(f"bodyend.{who}.{e[2]}.{OUT.get(e[3], '?' + e[3])}")
         elif k == "left":
-            toks.append(f"left.{who}.{e[2]}.{OUT.get(e[3], '?' + e[3])}.{e[5]}")
+            if e[2] not in entered:   # `__aenter__` raised: modelled only as delivery of a pending cancellation
+                toks.append(f"enterfail.{who}.{e[2]}" if e[3] == "Cancelled" else f"?enterfail-{e[3]}")
+            else:
+                toks.append(f"left.{who}.{e[2]}.{OUT.get(e[3], '?' + e[3])}.{e[5]}")
         elif k == "await":
             toks.append(f"await.{who}.{e[2]}")
         elif k == "resume":
@@ -202,18 +207,26 @@ class View:
         return [m for m in self.members.get(b, []) if self.spawn_pos[m] < pos and not self.ended_before(m, pos)]
 
 
-def members_not_cancelled(v: View, b: int, pos: int) -> list[int]:
+def members_not_cancelled(v: View, b: int, pos: int, abort_later: bool = False) -> list[int]:
     """Members of b's group, pending at event index pos (the moment the group aborts), that are demonstrably *awaited
     instead of cancelled*: blocked on a gate, never cancelled before, and resumed normally afterwards; or not started
-    yet and started afterwards.  (A member that had already been cancelled once and caught it is user code's business.)"""
+    yet and started afterwards.  (A member that had already been cancelled once and caught it is user code's business.)
+    With `abort_later` the abort happens at the owner's next step after pos (a self-requested cancellation delivered when
+    the exit suspends): members may still take their first step up to their first gate before it."""
     bad = []
     for m in v.pending_members(b, pos):
+        if v.cancelled_resume_before(m, pos):
+            continue
         if not v.started_before(m, pos):
-            if any(e[1] == "start" for _i, e in v.task_events(m, pos)):
+            if abort_later:
+                res = [e for _i, e in v.task_events(m, pos) if e[1] == "resume"]
+                if res and res[0][3] == "ok":
+                    bad.append(m)
+            elif any(e[1] == "start" for _i, e in v.task_events(m, pos)):
                 bad.append(m)
             continue
         last = v.last_event(m, pos)
-        if last is None or last[1][1] != "await" or v.cancelled_resume_before(m, pos):
+        if last is None or last[1][1] != "await":
             continue
         nxt = v.task_events(m, pos)
         if nxt and nxt[0][1][1] == "resume" and nxt[0][1][3] == "ok":
@@ -354,7 +367,7 @@ def monitor_c07(case: str, out: str) -> list[str]:
                 else:
                     fails.add("groups.cancel-swallowed.exit-wait")
         # the tasks it spawned in those scopes are cancelled too
-        if in_exit is not None and members_not_cancelled(v, in_exit[0], max(pos, in_exit[2]) + 1):
+        if in_exit is not None and members_not_cancelled(v, in_exit[0], max(pos, in_exit[2]) + 1, v.ev[pos][0] != "X"):
             fails.add("groups.members-not-cancelled.exit-wait")
         for i, e in v.task_events(t, pos + 1):
             if e[1] == "bodyend" and v.is_async(int(e[2])) and e[3] != "ok" and members_not_cancelled(v, int(e[2]), i):
@@ -401,6 +414,74 @@ def pairs(case: str, steps: int = 5, width: int = 2):
                 for j2 in range(width):
                     yield json.dumps({"prog": prog, "sched": [0] * k + [LAST - j] + [0] * k2 + [LAST - j2]},
                                      separators=(",", ":"))
+
+
+def _a(b, body):
+    return ["block", "async", b, [], [], body]
+
+
+_SLOW = [["try", [["await", 1]]], ["await", 2]]          # a member that swallows one cancellation and waits again
+DIRECTED = [
+    # member pending at a normal body end; cancellation while the exit waits (swallowed on the pinned tree)
+    [_a(1, [["spawn", 1, "spawn", [["await", 1]]]]), ["probe", 1], ["await", 9]],
+    # body raises while a member is slow to die; cancellation arriving during that wait (CPython absorbs it)
+    [_a(1, [["spawn", 1, "spawn", _SLOW], ["await", 3], ["raise", "exc"]]), ["probe", 1], ["await", 9]],
+    # member raising an ordinary error while being cancelled
+    [_a(1, [["spawn", 1, "spawn", [["awaitx", 1]]]]), ["await", 9]],
+    # member failing while the exit waits / while the body runs; another member slow to die
+    [_a(1, [["spawn", 1, "spawn", _SLOW], ["spawn", 2, "spawn", [["await", 3], ["raise", "exc"]]]]), ["await", 9]],
+    [_a(1, [["spawn", 1, "spawn", _SLOW], ["spawn", 2, "spawn", [["await", 3], ["raise", "base"]]],
+            ["try", [["await", 4]]]]), ["check"], ["await", 9]],
+    # spawns from nested sync scope / update, transitively from members, nested async scopes
+    [_a(1, [["block", "sync", 2, [], [], [["spawn", 1, "spawn", [["await", 1], ["spawn", 3, "spawn", [["await", 4]]]]]]],
+            ["block", "upd", 4, [], [], [["spawn", 4, "spawn", [["await", 5]]]]],
+            _a(3, [["spawn", 2, "spawn", [["await", 2]]], ["await", 3]])]), ["check"]],
+    # plain create_task inside a scope: not a member, inherits the group, outlives the scope, later spawn is refused
+    [_a(1, [["spawn", 1, "create", [["spawn", 2, "spawn", [["await", 1]]], ["await", 2], ["spawn", 3, "spawn", [["probe", 1]]],
+                                    _a(2, [["spawn", 4, "spawn", [["await", 3]]]])]]]), ["await", 9]],
+    # outside any scope: detached; the spawner failing must not touch it
+    [["spawn", 1, "spawn", [["await", 1], _a(1, [["spawn", 2, "spawn", [["await", 2]]]])]], ["await", 3], ["raise", "exc"]],
+    # ctx.cancel() on oneself: before the exit, with and without members; the check before/after
+    [["check"], _a(1, [["spawn", 1, "spawn", [["await", 1]]], ["cancelself"], ["check"]]), ["probe", 1]],
+    [_a(1, [["spawn", 1, "spawn", [["await", 1]]], ["cancelself"]]), ["await", 9]],
+    [_a(1, [["cancelself"]]), ["check"], ["await", 9]],
+    # member failing: the group cancels the body; user code catching that; the check afterwards
+    [["check"], _a(1, [["spawn", 1, "spawn", [["raise", "exc"]]], ["try", [["await", 1]]], ["check"], ["await", 2]]), ["check"]],
+    # body cancelled from outside with blocked and not-yet-started members; member spawning while the group exits
+    [_a(1, [["await", 1], ["spawn", 1, "spawn", [["await", 2]]], ["spawn", 2, "spawn", [["await", 3]]], ["raise", "base"]])],
+    [_a(1, [["spawn", 1, "spawn", [["await", 1], ["spawn", 2, "spawn", [["await", 2]]], ["await", 3],
+                                    ["spawn", 3, "spawn", [["probe", 1]]]]]]), ["await", 9]],
+    # two nested async scopes, members in both, cancellation in the inner exit wait
+    [_a(1, [["spawn", 1, "spawn", [["await", 5]]], _a(2, [["spawn", 2, "spawn", _SLOW]]), ["await", 4]]), ["await", 9]],
+]
+
+
+def _gates(prog, acc):
+    for st in prog:
+        if st[0] in ("await", "awaitx"):
+            acc.append(st[1])
+        elif st[0] == "try":
+            _gates(st[1], acc)
+        elif st[0] == "spawn":
+            _gates(st[3], acc)
+        elif st[0] == "block":
+            _gates(st[5], acc)
+    return acc
+
+
+for _p in DIRECTED:   # a gate is one future: two waiters on it would be cancelled together (harness artefact)
+    _g = _gates(_p, [])
+    assert len(_g) == len(set(_g)), _p
+
+
+def directed(maxlen: int, width: int = 6):
+    """every schedule of length <= maxlen over the first `width` options, for every directed program"""
+    import itertools
+
+    for prog in DIRECTED:
+        for n in range(0, maxlen + 1):
+            for sched in itertools.product(range(width), repeat=n):
+                yield json.dumps({"prog": prog, "sched": list(sched)}, separators=(",", ":"))
 
 
 def mutate(rng, case: str) -> str:
